@@ -124,6 +124,8 @@ def _main(argv=None):
     pid = args.pid.upper()
     seed = int(os.environ.get('VERIF_SEED', '0') or 0)
     sys.path.insert(0, str(VERIF))
+    import substrate
+    substrate.fastarena()
     mod = importlib.import_module('props.' + pid.lower())
     ctx = Ctx(pid, args.tier, seed, mod.LEVEL)
     ctx.assumptions = list(getattr(mod, 'ASSUMPTIONS', []))
@@ -194,6 +196,8 @@ def _main(argv=None):
 
 def _winit(need_substrate, init):
     sys.path.insert(0, str(VERIF))
+    import substrate
+    substrate.fastarena()
     if need_substrate:
         import substrate
         substrate.install()
